@@ -191,15 +191,54 @@ struct Stats1 {
     argmax: usize,
 }
 
+// The quantifier asks for at least two observations for the sample statistics: with fewer the library
+// is not called at all (what it does there — NaN, a panic — is outside the property) and the value is a
+// NaN placeholder that no assertion reads.
+fn q_sample_var(x: &[f64]) -> f64 {
+    if x.len() < 2 { f64::NAN } else { st::sample_var(x) }
+}
+fn q_sample_std(x: &[f64]) -> f64 {
+    if x.len() < 2 { f64::NAN } else { st::sample_std(x) }
+}
+fn q_sample_covariance(x: &[f64], y: &[f64]) -> f64 {
+    if x.len() < 2 { f64::NAN } else { st::sample_covariance(x, y) }
+}
+fn q_sample_covariance_onepass(x: &[f64], y: &[f64]) -> f64 {
+    if x.len() < 2 { f64::NAN } else { st::sample_covariance_onepass(x, y) }
+}
+fn q_sample_covariance_online(x: &[f64], y: &[f64]) -> f64 {
+    if x.len() < 2 { f64::NAN } else { st::sample_covariance_online(x, y) }
+}
+trait SampleQ {
+    fn q_sample_var(&self) -> f64;
+    fn q_sample_std(&self) -> f64;
+}
+impl SampleQ for Vector {
+    fn q_sample_var(&self) -> f64 {
+        if self.len() < 2 { f64::NAN } else { self.sample_var() }
+    }
+    fn q_sample_std(&self) -> f64 {
+        if self.len() < 2 { f64::NAN } else { self.sample_std() }
+    }
+}
+impl SampleQ for Matrix {
+    fn q_sample_var(&self) -> f64 {
+        if self.data.len() < 2 { f64::NAN } else { self.sample_var() }
+    }
+    fn q_sample_std(&self) -> f64 {
+        if self.data.len() < 2 { f64::NAN } else { self.sample_std() }
+    }
+}
+
 fn call_api(api: &str, x: &[f64], shape: (usize, usize)) -> Result<Stats1, String> {
     guard(|| match api {
         "free" => Stats1 {
             mean: st::mean(x),
             welford_mean: Some(st::welford_mean(x)),
             var: st::var(x),
-            sample_var: st::sample_var(x),
+            sample_var: q_sample_var(x),
             std: st::std(x),
-            sample_std: st::sample_std(x),
+            sample_std: q_sample_std(x),
             min: st::min(x),
             max: st::max(x),
             argmin: st::argmin(x),
@@ -207,7 +246,7 @@ fn call_api(api: &str, x: &[f64], shape: (usize, usize)) -> Result<Stats1, Strin
         },
         "vector" => {
             let v = Vector::from(x.to_vec());
-            Stats1 { mean: v.mean(), welford_mean: None, var: v.var(), sample_var: v.sample_var(), std: v.std(), sample_std: v.sample_std(), min: v.min(), max: v.max(), argmin: v.argmin(), argmax: v.argmax() }
+            Stats1 { mean: v.mean(), welford_mean: None, var: v.var(), sample_var: v.q_sample_var(), std: v.std(), sample_std: v.q_sample_std(), min: v.min(), max: v.max(), argmin: v.argmin(), argmax: v.argmax() }
         }
         _ => {
             let m = Matrix::new(x.to_vec(), shape.0 as i32, shape.1 as i32);
@@ -215,7 +254,7 @@ fn call_api(api: &str, x: &[f64], shape: (usize, usize)) -> Result<Stats1, Strin
             let (r1, c1) = m.argmax();
             // (row, col) -> flat index; an out-of-shape position maps to an impossible index
             let flat = |r: usize, c: usize| if r < shape.0 && c < shape.1 { r * shape.1 + c } else { usize::MAX };
-            Stats1 { mean: m.mean(), welford_mean: None, var: m.var(), sample_var: m.sample_var(), std: m.std(), sample_std: m.sample_std(), min: m.min(), max: m.max(), argmin: flat(r0, c0), argmax: flat(r1, c1) }
+            Stats1 { mean: m.mean(), welford_mean: None, var: m.var(), sample_var: m.q_sample_var(), std: m.std(), sample_std: m.q_sample_std(), min: m.min(), max: m.max(), argmin: flat(r0, c0), argmax: flat(r1, c1) }
         }
     })
 }
@@ -356,7 +395,7 @@ struct Cov4 {
     online: f64,
 }
 fn cov4(x: &[f64], y: &[f64]) -> Result<Cov4, String> {
-    guard(|| Cov4 { pop: st::covariance(x, y), smp: st::sample_covariance(x, y), onepass: st::sample_covariance_onepass(x, y), online: st::sample_covariance_online(x, y) })
+    guard(|| Cov4 { pop: st::covariance(x, y), smp: q_sample_covariance(x, y), onepass: q_sample_covariance_onepass(x, y), online: q_sample_covariance_online(x, y) })
 }
 const ALGOS: [&str; 4] = ["twopass_pop", "twopass_sample", "onepass", "online"];
 impl Cov4 {
@@ -423,7 +462,7 @@ fn check_pair_in(rep: &mut Report, class: &str, x: &[f64], y: &[f64], tag: Optio
         rep.check("C08.cov.agree", &rg(&format!("{}~twopass_sample", a)), err <= tol, || ctx(c.js(), json!("equal after the n/(n-1) factor"), json!({"pair": a, "abs_diff": jnum(err), "tol": tol})));
     }
     // symmetry and cov(x,x) = var(x)
-    match (cov4(y, x), cov4(x, x), guard(|| (st::var(x), st::sample_var(x)))) {
+    match (cov4(y, x), cov4(x, x), guard(|| (st::var(x), q_sample_var(x)))) {
         (Ok(cs), Ok(cxx), Ok((vx, svx))) => {
             rep.note_add("library_calls", 10.0);
             for a in ALGOS {
@@ -478,7 +517,7 @@ fn metamorphic(rng: &mut Rng, rep: &mut Report, maxlen: usize) {
     rep.case(&format!("meta:{}", sreg));
     let (mx, my, mxs, mys) = (moments(&x, false), moments(&y, false), moments(&xs, false), moments(&ys, false));
     let ctx = |obs: Value, extra: Value| json!({"n": n, "x": jf(&x), "y": jf(&y), "shift_x": cx, "shift_y": cy, "observed": obs, "detail": extra});
-    let r = guard(|| (st::var(&x), st::var(&xs), st::sample_var(&x), st::sample_var(&xs), st::std(&x), st::std(&xs)));
+    let r = guard(|| (st::var(&x), st::var(&xs), q_sample_var(&x), q_sample_var(&xs), st::std(&x), st::std(&xs)));
     let (c0, c1) = (cov4(&x, &y), cov4(&xs, &ys));
     rep.note_add("library_calls", 14.0);
     match (r, c0, c1) {
@@ -512,8 +551,8 @@ fn metamorphic(rng: &mut Rng, rep: &mut Report, maxlen: usize) {
     let zy: Vec<f64> = data_y.iter().map(|&v| v * sy).collect();
     rep.case("meta:scale-2^k");
     let ctx2 = |obs: Value| json!({"n": n, "x": jf(data_x), "y": jf(data_y), "scale_x": sx, "scale_y": sy, "observed": obs});
-    let r0 = guard(|| (st::mean(data_x), st::welford_mean(data_x), st::var(data_x), st::sample_var(data_x), st::std(data_x), st::sample_std(data_x)));
-    let r1 = guard(|| (st::mean(&zx), st::welford_mean(&zx), st::var(&zx), st::sample_var(&zx), st::std(&zx), st::sample_std(&zx)));
+    let r0 = guard(|| (st::mean(data_x), st::welford_mean(data_x), st::var(data_x), q_sample_var(data_x), st::std(data_x), q_sample_std(data_x)));
+    let r1 = guard(|| (st::mean(&zx), st::welford_mean(&zx), st::var(&zx), q_sample_var(&zx), st::std(&zx), q_sample_std(&zx)));
     rep.note_add("library_calls", 20.0);
     match (r0, r1, cov4(data_x, data_y), cov4(&zx, &zy)) {
         (Ok(p), Ok(q), Ok(c0), Ok(c1)) => {
@@ -743,12 +782,12 @@ fn extreme_scale(rng: &mut Rng, rep: &mut Report, maxlen: usize, big: bool) {
     rep.case(&regime);
     rep.seen(if big { "xscale:huge" } else { "xscale:tiny" }, 1);
     let ctx = |obs: Value| json!({"n": n, "x": jf(&x), "y": jf(&y), "scale_x": sx, "scale_y": sy, "observed": obs, "note": "stat(scale * data) must equal scale^(1|2) * stat(data) to 4 ulp"});
-    let r0 = guard(|| (st::mean(&x), st::welford_mean(&x), st::var(&x), st::sample_var(&x), st::std(&x), st::sample_std(&x), st::min(&x), st::max(&x), st::argmin(&x), st::argmax(&x)));
-    let r1 = guard(|| (st::mean(&zx), st::welford_mean(&zx), st::var(&zx), st::sample_var(&zx), st::std(&zx), st::sample_std(&zx), st::min(&zx), st::max(&zx), st::argmin(&zx), st::argmax(&zx)));
+    let r0 = guard(|| (st::mean(&x), st::welford_mean(&x), st::var(&x), q_sample_var(&x), st::std(&x), q_sample_std(&x), st::min(&x), st::max(&x), st::argmin(&x), st::argmax(&x)));
+    let r1 = guard(|| (st::mean(&zx), st::welford_mean(&zx), st::var(&zx), q_sample_var(&zx), st::std(&zx), q_sample_std(&zx), st::min(&zx), st::max(&zx), st::argmin(&zx), st::argmax(&zx)));
     let v1 = guard(|| {
         let v = Vector::from(zx.clone());
         let m = Matrix::new(zx.clone(), 1, n as i32);
-        [v.var(), v.std(), v.sample_var(), v.sample_std(), m.var(), m.std(), m.sample_var(), m.sample_std()]
+        [v.var(), v.std(), v.q_sample_var(), v.q_sample_std(), m.var(), m.std(), m.q_sample_var(), m.q_sample_std()]
     });
     rep.note_add("library_calls", 36.0);
     match (r0, r1, v1, cov4(&x, &y), cov4(&zx, &zy)) {
